@@ -3,7 +3,7 @@ import SakuraVerif.Driver.LexOps
 import SakuraVerif.Driver.Sexp
 import SakuraVerif.Driver.CoreOps
 import SakuraVerif.Lemmas.ExecRefine
-import SakuraVerif.Lemmas.LexPrint
+import SakuraVerif.Lemmas.LexPrint2
 /-! Driver side of the runner tie: parses the real token list (S-expression form written by the
     harness op `lexrun`), runs `Model.Exec` and prints events and track states in the harness's
     text form. -/
@@ -67,11 +67,11 @@ def compileOp (progHex : String) : String :=
   let t := " ".intercalate ((Ex2.compileL cs).map tokStr)
   "toks=" ++ hex (t.toUTF8.toList.map (fun b => b.toNat))
 
-/-- `printk <hex of program S-expression>` → the canonical text `Lp.printKL` of the program, the compiled token list, and the model
+/-- `printk <hex of program S-expression>` → the canonical text `Lp.printKL2` of the program, the compiled token list, and the model
     lexer's answer on that text -/
 def printkOp (progHex : String) : String :=
   let cs := progOf progHex
-  let txt := Lp.printKL cs []
+  let txt := Lp.printKL2 cs []
   let t := " ".intercalate ((Ex2.compileL cs).map tokStr)
   let lexed := match Lx.lex 96 txt 0 with
     | some o => if o.errs.isEmpty then " ".intercalate (o.toks.map tokStr) else "errors"
